@@ -364,8 +364,15 @@ pub fn rec_stream(a: &Args, out: &mut Out) {
     let mut r = rng(a.seed(), 6);
     let nums = supported_numbers();
     for k in 0..n {
-        let (stream, _) = grammar_buffer(&mut r, &nums, 8, max_len);
+        let (mut stream, _) = grammar_buffer(&mut r, &nums, 8, max_len);
         let style = k % 4;
+        if k % 8 == 0 {
+            // make sure frames at the maximum length are cut at every position (style 0 feeds single bytes)
+            let l = 1019 + (k as usize / 8) % 5;
+            let p = random_payload(&mut r, l);
+            stream.extend(mk_frame(&p, if k % 16 == 0 { 0 } else { 5 }));
+            stream.extend(random_frame(&mut r, &nums));
+        }
         out.emit(json!({"ev": "StreamInit", "stream": bytes_json(&stream), "style": style}));
         let mut pending: Vec<u8> = vec![];
         let mut fed = 0usize;
